@@ -2100,3 +2100,46 @@ pub fn control_matrix_case(r: &mut Rng) -> (String, Doc) {
   };
   (schema, doc)
 }
+
+// ------------------------------------------------------------------------------------------------
+// occurrence arithmetic and map-entry bookkeeping: reversed / zero / huge occurrence bounds against arrays
+// of every small length; the same key matched by two schema entries; optional entries followed by
+// wildcards; CBOR maps with duplicate keys; empty containers in odd positions
+
+/// (schema, JSON-able document, raw CBOR override). The CBOR override carries what JSON cannot: duplicate keys.
+pub fn occurrence_edge_case(r: &mut Rng) -> (String, Doc, Option<Vec<u8>>) {
+  let occ = *r.pick(&["3*1", "0*0", "1*1", "2*2", "0*1", "5*", "*0", "18446744073709551615*", "*18446744073709551615", "2*18446744073709551615", "9223372036854775808*9223372036854775807", "+", "?", "*"]);
+  let occ2 = *r.pick(&["?", "*", "+", "0*0", "1*2", "2*1"]);
+  let n = r.below(7);
+  let arr = Doc::Array((0..n).map(|i| if r.chance(1, 5) { Doc::Text("s".into()) } else { Doc::Int(i as i128) }).collect());
+  let small_map = |r: &mut Rng| -> Doc {
+    let k = r.below(4);
+    Doc::Map((0..k).map(|i| (Doc::Text((*r.pick(&["a", "b", "c", ""])).to_string() + if r.coin() { "" } else { "x" }), if i % 2 == 0 { Doc::Int(i as i128) } else { Doc::Text("v".into()) })).collect())
+  };
+  match r.below(10) {
+    0 => (format!("root = [ {} int ]\n", occ), arr, None),
+    1 => (format!("root = [ {} int, {} tstr ]\n", occ, occ2), arr, None),
+    2 => (format!("root = [ {} (int, tstr), {} int ]\n", occ, occ2), arr, None),
+    3 => (format!("root = [ {} [ {} int ] ]\n", occ, occ2), Doc::Array(vec![arr.clone(), Doc::Array(vec![]), arr]), None),
+    4 => (format!("root = {{ {} tstr => int }}\n", occ), small_map(r), None),
+    5 => (format!("root = {{ ? a: int, {} tstr => any }}\n", occ2), small_map(r), None),
+    6 => ("root = { a: int, a: tstr }\n".to_string(), small_map(r), None),
+    7 => (format!("root = {{ {} tstr => int, {} tstr => tstr }}\n", occ2, occ), small_map(r), None),
+    8 => {
+      // CBOR maps with duplicate keys (JSON cannot carry them): {"a": 1, "a": "v"}, {"a": 1, "a": 1, "b": 2}, {1: 1, 1: 2}
+      let raw: Vec<u8> = match r.below(4) {
+        0 => vec![0xa2, 0x61, 0x61, 0x01, 0x61, 0x61, 0x61, 0x76],
+        1 => vec![0xa3, 0x61, 0x61, 0x01, 0x61, 0x61, 0x01, 0x61, 0x62, 0x02],
+        2 => vec![0xa2, 0x01, 0x01, 0x01, 0x02],
+        _ => vec![0xbf, 0x61, 0x61, 0x01, 0x61, 0x61, 0x02, 0x61, 0x61, 0x03, 0xff],
+      };
+      let schema = *r.pick(&["root = { a: int, ? a: tstr }\n", "root = { * tstr => int }\n", "root = { a: int }\n", "root = { ? a: int, * tstr => any }\n", "root = { 1: int, ? 1: int }\n", "root = { + tstr => int / tstr }\n"]);
+      (schema.to_string(), Doc::Map(vec![(Doc::Text("a".into()), Doc::Int(1))]), Some(raw))
+    }
+    _ => (
+      format!("root = {{ list: [ {} item ], ? empty: [] / {{}} }}\nitem = [] / {{}} / int\n", occ),
+      Doc::Map(vec![(Doc::Text("list".into()), Doc::Array(vec![Doc::Array(vec![]), Doc::Map(vec![]), Doc::Int(1)])), (Doc::Text("empty".into()), if r.coin() { Doc::Array(vec![]) } else { Doc::Map(vec![]) })]),
+      None,
+    ),
+  }
+}
